@@ -49,8 +49,8 @@ ASSUMPTIONS = [
     'public seam: Session.set_variable/get_variable and direct statements through Session.execute (harness.run)',
     'when several arguments are out of range (e.g. one overflows, another is negative) any of the applicable '
     'errors is accepted: the statement does not fix the order of the checks',
-    'INSTR with an empty search string and start = LEN(parent)+1 (including parent = ""): 0 and start are both '
-    'accepted (the manual says 0 for start > LEN, the mathematical definition says start)',
+    'INSTR reference definition is the GW-BASIC manual\'s: 0 whenever start > LEN(parent) (also for an empty child '
+    'at start = LEN(parent)+1 and for parent = ""), start for an empty child otherwise',
     'MID$ statement with length 0 and a position outside [1,255]: Illegal function call or no effect both accepted',
     'MID$(A$,p[,n])=A$ (source is the target variable itself): the reference definition is the sequential '
     'replacement GW-BASIC performs (bytes copied from the left, so already replaced bytes are re-read; recorded in '
